@@ -6,14 +6,15 @@ search fill in, is a sequence of `stepCore` steps — so a replayed explanation 
 -/
 namespace AutoVerif.C18
 
-theorem runT_path {t t' : TState} {ls : List CLabel} {h : Option Msg} (hr : runT t ls h = some t') :
+theorem runT_path {t t' : TState} {ls : List CLabel} {h : Option Msg} (hr : runT false t ls h = some t') :
     runC t.c ls = some t'.c := by
   unfold runT at hr
+  simp only [Bool.false_eq_true, if_false] at hr
   cases hc : runC t.c ls with
   | none => simp [hc] at hr
   | some c' => simp [hc] at hr; rw [← hr]
 
-theorem sendT_path {t t' : TState} {l : CLabel} {m : Msg} (hr : sendT t l m = some t') :
+theorem sendT_path {t t' : TState} {l : CLabel} {m : Msg} (hr : sendT false t l m = some t') :
     runC t.c [l] = some t'.c := by
   unfold sendT at hr
   split at hr
@@ -24,7 +25,7 @@ theorem sendT_path {t t' : TState} {l : CLabel} {m : Msg} (hr : sendT t l m = so
       · exact runT_path hr
       · simp at hr
 
-theorem tstep_path {t t' : TState} {e : Ev} (h : tstep t e = some t') : ∃ ls, runC t.c ls = some t'.c := by
+theorem tstep_path {t t' : TState} {e : Ev} (h : tstep false t e = some t') : ∃ ls, runC t.c ls = some t'.c := by
   unfold tstep at h
   simp only [] at h
   repeat' split at h
@@ -34,7 +35,7 @@ theorem tstep_path {t t' : TState} {e : Ev} (h : tstep t e = some t') : ∃ ls, 
     | exact ⟨_, sendT_path h⟩
     | (simp only [Option.some.injEq] at h; subst h; exact ⟨[], rfl⟩))
 
-theorem replay_path {evs : Array Ev} : ∀ (items : List Item) (t t' : TState), replay evs t items = some t' →
+theorem replay_path {evs : Array Ev} : ∀ (items : List Item) (t t' : TState), replay false evs t items = some t' →
     ∃ ls, runC t.c ls = some t'.c := by
   intro items
   induction items with
@@ -48,7 +49,7 @@ theorem replay_path {evs : Array Ev} : ∀ (items : List Item) (t t' : TState), 
       | none => simp [he] at h
       | some e =>
         simp only [he] at h
-        cases hs : tstep t e with
+        cases hs : tstep false t e with
         | none => simp [hs] at h
         | some t1 =>
           simp only [hs] at h
@@ -66,8 +67,8 @@ theorem replay_path {evs : Array Ev} : ∀ (items : List Item) (t t' : TState), 
           exact ⟨l :: l2, by simp only [runC, hs]; exact h2⟩
       · simp at h
 
-theorem replay_take {evs : Array Ev} : ∀ (items : List Item) (t t' : TState), replay evs t items = some t' →
-    ∀ k, ∃ tk, replay evs t (items.take k) = some tk := by
+theorem replay_take {old : Bool} {evs : Array Ev} : ∀ (items : List Item) (t t' : TState), replay old evs t items = some t' →
+    ∀ k, ∃ tk, replay old evs t (items.take k) = some tk := by
   intro items
   induction items with
   | nil => intro t t' h k; simp [replay]
@@ -84,7 +85,7 @@ theorem replay_take {evs : Array Ev} : ∀ (items : List Item) (t t' : TState), 
         | none => simp [he] at h
         | some e =>
           simp only [he] at h ⊢
-          cases hs : tstep t e with
+          cases hs : tstep old t e with
           | none => simp [hs] at h
           | some t1 => simp only [hs] at h ⊢; exact ih t1 t' h k
       | hid l =>
@@ -96,7 +97,6 @@ theorem replay_take {evs : Array Ev} : ∀ (items : List Item) (t t' : TState), 
           | none => simp [hs] at h
           | some c1 => simp only [hs] at h ⊢; exact ih _ t' h k
         · simp at h
-
 
 /-! ### the OCR2 RecoverableService -/
 namespace V2
